@@ -15,6 +15,23 @@ Open Scope N_scope.
 (* [None]: out of fuel, or an expression whose evaluation is undefined
    (eval_expr), or a statement outside the fragment; the boolean of a result
    says that a `break` is under way (the innermost enclosing loop ends it) *)
+(* the element of an iterable at position i: OpIterRange *)
+Definition iter_elem (iter : value) (i : nat) : option value :=
+  match iter with
+  | VArr l => nth_error l i
+  | VMap m => option_map (fun kv => VStr (fst kv)) (nth_error m i)
+  | VStr s => let runes := utf8_decode s in
+              if (i <? List.length runes)%nat then Some (VStr (utf8_encode (firstn 1 (skipn i runes)))) else None
+  | _ => None
+  end.
+(* None: the counter is not a non-negative integer (cannot happen from 0 by +1
+   below 2^53); Some None: the iteration is over *)
+Definition iter_next (iter : value) (idx : float) : option (option value) :=
+  match float_to_Z idx with
+  | Some z => if (z <? 0)%Z then None else Some (iter_elem iter (Z.to_nat z))
+  | None => None
+  end.
+
 (* OpStepRange's `stillGoing` *)
 Definition going (idx stp stop : float) : bool :=
   (PrimFloat.ltb 0 stp && PrimFloat.ltb idx stop) || (PrimFloat.ltb stp 0 && PrimFloat.ltb stop idx).
@@ -45,6 +62,16 @@ Fixpoint exec_s (fuel : nat) (s : stmt) (env : genv) {struct fuel} : option (gen
               if PrimFloat.eqb vstep 0 then None
               else exec_rv f n vstart vstep vstop b (upd env n VNone)
           | _, _, _ => None
+          end
+      | SForIter (Some n) t e b =>
+          (* over the elements of an array / the characters of a string / the keys of a map *)
+          match t with
+          | TStr | TArr | TMap =>
+              match eval_expr env e with
+              | Some iter => exec_iv f n 0%float iter b (upd env n VNone)
+              | None => None
+              end
+          | _ => None
           end
       | SWhile c b =>
           match eval_expr env c with
@@ -100,6 +127,22 @@ with exec_rv (fuel : nat) (n : str) (idx stp stop : float) (b : slist) (env : ge
         end
       else Some (env, false)
   end
+(* `for n := range iter`, from (float) index idx on *)
+with exec_iv (fuel : nat) (n : str) (idx : float) (iter : value) (b : slist) (env : genv) {struct fuel} : option (genv * bool) :=
+  match fuel with
+  | O => None
+  | S f =>
+      match iter_next iter idx with
+      | Some (Some v) =>
+          match exec_l f b (upd env n v) with
+          | Some (env1, false) => exec_iv f n (idx + 1)%float iter b env1
+          | Some (env1, true) => Some (env1, false)
+          | None => None
+          end
+      | Some None => Some (env, false)
+      | None => None
+      end
+  end
 (* the condition chain of an if statement: the first true condition runs its block *)
 with exec_c (fuel : nat) (l : clist) (els : oslist) (env : genv) {struct fuel} : option (genv * bool) :=
   match fuel with
@@ -128,6 +171,7 @@ Fixpoint sdepth (s : stmt) : N :=
         (N.max (1 + edepth (match step with OSome e => e | ONoneE => ENum 1 end))
            (N.max (2 + edepth (match start with OSome e => e | ONoneE => ENum 0 end))
               (N.max 5 (3 + ldepth b))))
+  | SForIter _ _ e b => N.max (edepth e) (N.max 4 (2 + ldepth b))
   | _ => 0
   end
 with ldepth (l : slist) : N :=
@@ -302,6 +346,42 @@ Proof.
   change (0 * 256 + 1) with 1. cbn [step_range N.eqb Pos.eqb negb andb]. rewrite andb_true_r. fold (going idx stp stop).
   unfold with_stack. destruct (going idx stp stop); cbn [List.length app];
     match goal with |- (if ?c then _ else _) = _ => destruct c eqn:E; [apply N.ltb_lt in E; lia|reflexivity] end.
+Qed.
+
+Lemma step_iterrange_lv p vs pre post idx iter base :
+  pcode p = pre ++ [N_of_opc IterRange; 0; 1] ++ post -> ip vs = N.of_nat (List.length pre) ->
+  ostack vs = VNum idx :: iter :: base ->
+  N.of_nat (List.length (locals vs)) + N.of_nat (List.length base) + 4 <= StackSize ->
+  forall r, iter_next iter idx = Some r ->
+  vm_step p vs = Running {| ip := ip vs + 3;
+                            ostack := match r with
+                                      | Some v => VBool true :: v :: VNum (idx + 1)%float :: iter :: base
+                                      | None => VBool false :: VNum (idx + 1)%float :: iter :: base
+                                      end;
+                            locals := locals vs; globals := globals vs |}.
+Proof.
+  intros HC HI HS HR r HN. rewrite (fetch_arg p vs IterRange 0 1 pre post HC HI eq_refl).
+  unfold exec. rewrite HS. cbn [List.length Nat.ltb Nat.leb]. change (0 * 256 + 1) with 1.
+  unfold iter_next in HN. unfold iter_range. destruct (float_to_Z idx) as [z|]; [|discriminate].
+  destruct (z <? 0)%Z; [discriminate|]. inversion HN; subst r. unfold iter_elem.
+  cbn [N.eqb Pos.eqb negb].
+  set (val := match iter with
+              | VArr l => nth_error l (Z.to_nat z)
+              | VMap m => option_map (fun kv => VStr (fst kv)) (nth_error m (Z.to_nat z))
+              | VStr s => if (Z.to_nat z <? List.length (utf8_decode s))%nat then Some (VStr (utf8_encode (firstn 1 (skipn (Z.to_nat z) (utf8_decode s))))) else None
+              | _ => None
+              end).
+  unfold with_stack. destruct val; cbn [List.length];
+    match goal with |- (if ?c then _ else _) = _ => destruct c eqn:E; [apply N.ltb_lt in E; lia|reflexivity] end.
+Qed.
+
+Lemma step_drop2 p vs pre post a b base :
+  pcode p = pre ++ [N_of_opc Drop; 0; 2] ++ post -> ip vs = N.of_nat (List.length pre) ->
+  ostack vs = a :: b :: base ->
+  vm_step p vs = Running {| ip := ip vs + 3; ostack := base; locals := locals vs; globals := globals vs |}.
+Proof.
+  intros HC HI HS. rewrite (fetch_arg p vs Drop 0 2 pre post HC HI eq_refl).
+  unfold exec. change (0 * 256 + 2) with 2. cbn [simple_effect]. rewrite HS. reflexivity.
 Qed.
 
 Lemma step_onone p vs pre post :
@@ -821,16 +901,16 @@ Qed.
 (* ---------- a step range WITH a loop variable (a global: top level only) ---------- *)
 (* the loop part, entered with index / step / stop on the stack; y is the slot
    of the loop variable *)
-Definition LAYRV (b : slist) (y : symbol) (s3 st' : cstate) (seg : list N) : Prop :=
+Definition LAYRV (rop : opc) (S : N) (b : slist) (y : symbol) (s3 st' : cstate) (seg : list N) : Prop :=
   exists stx stb bs_b seg_b jf jb sg,
     jbytes SetGlobal (sidx y) sg /\
     cconsts stx = cconsts s3 /\ same_resolve (csym stx) (csym s3) /\
     N.of_nat (List.length (ccode stx)) = N.of_nat (List.length (ccode s3)) + 9 /\
-    LAYL (Some (N.of_nat (List.length (ccode s3)) + N.of_nat (List.length ([N_of_opc StepRange; 0; 1] ++ jf ++ sg ++ seg_b ++ jb)))) b stx stb bs_b seg_b /\
-    jbytes JumpOnFalse (N.of_nat (List.length (ccode s3)) + N.of_nat (List.length ([N_of_opc StepRange; 0; 1] ++ jf ++ sg ++ seg_b ++ jb))) jf /\
+    LAYL (Some (N.of_nat (List.length (ccode s3)) + N.of_nat (List.length ([N_of_opc rop; 0; 1] ++ jf ++ sg ++ seg_b ++ jb)))) b stx stb bs_b seg_b /\
+    jbytes JumpOnFalse (N.of_nat (List.length (ccode s3)) + N.of_nat (List.length ([N_of_opc rop; 0; 1] ++ jf ++ sg ++ seg_b ++ jb))) jf /\
     jbytes Jump (N.of_nat (List.length (ccode s3))) jb /\
     cconsts st' = cconsts stb /\ csym st' = csym s3 /\
-    seg = [N_of_opc StepRange; 0; 1] ++ jf ++ sg ++ seg_b ++ jb ++ [N_of_opc Drop; 0; 3].
+    seg = [N_of_opc rop; 0; 1] ++ jf ++ sg ++ seg_b ++ jb ++ [N_of_opc Drop; 0; S].
 
 Lemma exec_rv_false : forall fuel n idx stp stop b env env' br,
   exec_rv fuel n idx stp stop b env = Some (env', br) -> br = false.
@@ -840,7 +920,7 @@ Proof.
   destruct (exec_l f b (upd env n (VNum idx))) as [[env1 [|]]|]; [inversion H; reflexivity|apply (IH _ _ _ _ _ _ _ _ H)|discriminate].
 Qed.
 
-Lemma sim_rv n b y s3 st' seg : LAYRV b y s3 st' seg -> st_resolve n (csym s3) = Some y ->
+Lemma sim_rv n b y s3 st' seg : LAYRV StepRange 3 b y s3 st' seg -> st_resolve n (csym s3) = Some y ->
   forall fuel G env env' br idx stp stop base, exec_rv fuel n idx stp stop b env = Some (env', br) -> forall p vs pre post,
     pcode p = pre ++ seg ++ post -> List.length pre = List.length (ccode s3) -> consts_of p st' ->
     ip vs = N.of_nat (List.length pre) -> PrimFloat.eqb stp 0 = false ->
@@ -919,6 +999,95 @@ Proof.
         eapply reaches_trans; [apply reaches_step; exact R5|exact R6].
       * rewrite I6. unfold vs5; simpl. rewrite HI, HLen. reflexivity.
   - inversion HX; subst env' br. cbn [app] in R1.
+    set (vs1 := {| ip := ip vs + 3; ostack := VBool false :: base'; locals := locals vs; globals := globals vs |}) in *.
+    pose proof (step_jof p vs1 (pre ++ sr) (sg ++ seg_b ++ jb ++ dr ++ post) jf _ false base' H3
+                  ltac:(rewrite HP, <- !app_assoc; reflexivity)
+                  ltac:(unfold vs1, sr; cbn [ip]; rewrite HI, app_length; simpl; lia) eq_refl) as R2.
+    set (vs2 := {| ip := Endp; ostack := base'; locals := locals vs1; globals := globals vs1 |}) in *.
+    destruct (EXIT env vs2 eq_refl eq_refl M2 M3 M4 M5) as (vs' & RE & IE & ME).
+    exists vs'. split; [|split; [exact IE|exact ME]].
+    eapply reaches_trans; [apply reaches_step; exact R1|]. eapply reaches_trans; [apply reaches_step; exact R2|exact RE].
+Qed.
+
+Lemma sim_iv n b y s3 st' seg : LAYRV IterRange 2 b y s3 st' seg -> st_resolve n (csym s3) = Some y ->
+  forall fuel G env env' br idx iter base, exec_iv fuel n idx iter b env = Some (env', br) -> forall p vs pre post,
+    pcode p = pre ++ seg ++ post -> List.length pre = List.length (ccode s3) -> consts_of p st' ->
+    ip vs = N.of_nat (List.length pre) ->
+    mstate_ok G s3 env (VNum idx :: iter :: base) vs ->
+    sym_static (csym s3) -> slots_distinct (csym s3) ->
+    N.of_nat (List.length base) + 4 <= StackSize -> N.of_nat (List.length base) + 2 + ldepth b <= StackSize ->
+    exists vs', reaches p vs vs' /\ ip vs' = ip vs + N.of_nat (List.length seg) /\ mstate_ok G s3 env' base vs'.
+Proof.
+  intros (stx & stb & bs_b & seg_b & jf & jb & sg & HSG & H & H0 & H1 & H2 & H3 & H4 & H5 & H6 & ->) HRy.
+  set (sr := [N_of_opc IterRange; 0; 1]) in *. set (dr := [N_of_opc Drop; 0; 2]) in *.
+  set (Endp := N.of_nat (List.length (ccode s3)) + N.of_nat (List.length (sr ++ jf ++ sg ++ seg_b ++ jb))) in *.
+  induction fuel as [|f IHr]; intros G env env' br idx iter base HX p vs pre post HP HLen HK HI HM HSS HSD HD5 HDb; [discriminate|].
+  cbn [exec_iv] in HX.
+  destruct (lay_frame) as (_ & LF & _). destruct (LF _ _ _ _ _ _ H2) as [(nb & Kb) Sb].
+  assert (HKb : consts_of p stb) by (destruct HK as (more & HK); exists more; rewrite HK, H5; reflexivity).
+  pose proof (jbytes_len _ _ _ H3) as Ljf. pose proof (jbytes_len _ _ _ H4) as Ljb. pose proof (jbytes_len _ _ _ HSG) as Lsg.
+  destruct HM as (M1 & M2 & M3 & M4 & M5).
+  destruct (iter_next iter idx) as [r|] eqn:HN; [|discriminate].
+  pose proof (step_iterrange_lv p vs pre (jf ++ sg ++ seg_b ++ jb ++ dr ++ post) idx iter base
+                ltac:(rewrite HP; unfold sr; rewrite <- !app_assoc; reflexivity) HI M1 ltac:(rewrite M2; simpl; lia) r HN) as R1.
+  set (base' := VNum (idx + 1)%float :: iter :: base) in *.
+  assert (EXIT : forall env2 vsd, ip vsd = Endp -> ostack vsd = base' -> locals vsd = [] ->
+            globals_hold env2 (csym s3) (globals vsd) -> slots_exist (csym s3) (globals vsd) -> List.length (globals vsd) = G ->
+            exists vs', reaches p vsd vs' /\ ip vs' = ip vs + N.of_nat (List.length (sr ++ jf ++ sg ++ seg_b ++ jb ++ dr)) /\ mstate_ok G s3 env2 base vs').
+  { intros env2 vsd ID OD LD GD SD ND.
+    pose proof (step_drop2 p vsd (pre ++ sr ++ jf ++ sg ++ seg_b ++ jb) post _ _ base
+                  ltac:(rewrite HP; unfold dr; rewrite <- !app_assoc; reflexivity)
+                  ltac:(rewrite ID; unfold Endp; rewrite !app_length, HLen, !Nat2N.inj_add; lia) OD) as RD.
+    eexists. split; [apply reaches_step; exact RD|]. split.
+    - simpl. rewrite ID, HI. unfold Endp, dr. rewrite !app_length, HLen. simpl. lia.
+    - unfold mstate_ok; simpl. repeat split; auto. }
+  destruct r as [v|].
+  - destruct (exec_l f b (upd env n v)) as [[env1 brb]|] eqn:HXb; [|discriminate].
+    set (vs1 := {| ip := ip vs + 3; ostack := VBool true :: v :: base'; locals := locals vs; globals := globals vs |}) in *.
+    pose proof (step_jof p vs1 (pre ++ sr) (sg ++ seg_b ++ jb ++ dr ++ post) jf _ true (v :: base') H3
+                  ltac:(rewrite HP, <- !app_assoc; reflexivity)
+                  ltac:(unfold vs1, sr; cbn [ip]; rewrite HI, app_length; simpl; lia) eq_refl) as R2.
+    set (vs2 := {| ip := ip vs1 + 3; ostack := v :: base'; locals := locals vs1; globals := globals vs1 |}) in *.
+    pose proof (M4 n y HRy) as HLy.
+    pose proof (step_setglobal p vs2 (pre ++ sr ++ jf) (seg_b ++ jb ++ dr ++ post) sg (sidx y) v base' HSG
+                  ltac:(rewrite HP, <- !app_assoc; reflexivity)
+                  ltac:(unfold vs2, vs1, sr; cbn [ip]; rewrite HI, !app_length, Ljf; simpl; lia) eq_refl
+                  ltac:(unfold vs2, vs1; cbn [globals]; exact HLy)) as R3.
+    set (vs3 := {| ip := ip vs2 + 3; ostack := base'; locals := locals vs2; globals := set_nth (N.to_nat (sidx y)) v (globals vs2) |}) in *.
+    assert (HM3 : mstate_ok G stx (upd env n v) base' vs3).
+    { apply (mstate_same G s3 stx); [exact H0|]. unfold mstate_ok, vs3, vs2, vs1; cbn [ostack locals globals]. repeat split; auto.
+      - apply store_global'; auto.
+      - intros m ym HRm. rewrite set_nth_length. apply (M4 m ym HRm).
+      - rewrite set_nth_length. exact M5. }
+    destruct (proj1 (proj2 (sim_all f)) _ b stx stb _ seg_b H2 G (upd env n v) env1 brb base' HXb p vs3 (pre ++ sr ++ jf ++ sg) (jb ++ dr ++ post)) as (vs4 & R4 & I4 & HM4).
+    { rewrite HP, <- !app_assoc. reflexivity. }
+    { rewrite !app_length, Ljf, Lsg. apply Nat2N.inj. rewrite H1, !Nat2N.inj_add, HLen. unfold sr. simpl. lia. }
+    { exact HKb. }
+    { unfold vs3, vs2, vs1; cbn [ip]. rewrite HI, !app_length, Ljf, Lsg. unfold sr. simpl. lia. }
+    { exact HM3. }
+    { apply (sym_static_same (csym s3)); assumption. }
+    { apply (slots_distinct_same (csym s3)); assumption. }
+    { unfold base'. cbn [List.length]. lia. }
+    pose proof (mstate_same_back G s3 stx env1 base' vs4 H0 HM4) as (B1 & B2 & B3 & B4 & B5).
+    destruct brb.
+    + inversion HX; subst env' br.
+      destruct (EXIT env1 vs4 I4 B1 B2 B3 B4 B5) as (vs' & RE & IE & ME).
+      exists vs'. split; [|split; [exact IE|exact ME]].
+      eapply reaches_trans; [apply reaches_step; exact R1|]. eapply reaches_trans; [apply reaches_step; exact R2|].
+      eapply reaches_trans; [apply reaches_step; exact R3|]. eapply reaches_trans; [exact R4|exact RE].
+    + pose proof (step_jump p vs4 (pre ++ sr ++ jf ++ sg ++ seg_b) (dr ++ post) jb _ H4
+                    ltac:(rewrite HP, <- !app_assoc; reflexivity)
+                    ltac:(rewrite I4; unfold vs3, vs2, vs1; cbn [ip]; rewrite HI, !app_length, Ljf, Lsg; unfold sr; simpl; lia)) as R5.
+      set (vs5 := {| ip := N.of_nat (List.length (ccode s3)); ostack := ostack vs4; locals := locals vs4; globals := globals vs4 |}) in *.
+      assert (HM5 : mstate_ok G s3 env1 base' vs5) by (unfold vs5, mstate_ok; simpl; repeat split; auto).
+      destruct (IHr G env1 env' br (idx + 1)%float iter base HX p vs5 pre post HP HLen HK) as (vs6 & R6 & I6 & HM6); auto.
+      { unfold vs5; simpl. rewrite HLen. reflexivity. }
+      exists vs6. split; [|split; [|exact HM6]].
+      * eapply reaches_trans; [apply reaches_step; exact R1|]. eapply reaches_trans; [apply reaches_step; exact R2|].
+        eapply reaches_trans; [apply reaches_step; exact R3|]. eapply reaches_trans; [exact R4|].
+        eapply reaches_trans; [apply reaches_step; exact R5|exact R6].
+      * rewrite I6. unfold vs5; simpl. rewrite HI, HLen. reflexivity.
+  - inversion HX; subst env' br.
     set (vs1 := {| ip := ip vs + 3; ostack := VBool false :: base'; locals := locals vs; globals := globals vs |}) in *.
     pose proof (step_jof p vs1 (pre ++ sr) (sg ++ seg_b ++ jb ++ dr ++ post) jf _ false base' H3
                   ltac:(rewrite HP, <- !app_assoc; reflexivity)
@@ -1266,16 +1435,18 @@ Lemma for_loop_lv_body n rop S b st : for_loop true (Some n) rop S b st =
    COk (with_breaks (cbreaks st3) st7)).
 Proof. destruct b; cbn [for_loop for_declare bind body_of]; destruct (st_define n (csym st)); reflexivity. Qed.
 
-Lemma layrv_ok n b s3 st' : slist_lay b -> top_ok s3 ->
-  for_loop true (Some n) StepRange 3 b s3 = COk st' ->
+Lemma layrv_ok rop S n b s3 st' : range_op rop S -> slist_lay b -> top_ok s3 ->
+  for_loop true (Some n) rop (Z.of_N S) b s3 = COk st' ->
   let sym' := fst (st_define n (csym s3)) in let y := snd (st_define n (csym s3)) in
   top_ok (with_sym sym' s3) /\ sscp y = GlobalScope /\ st_resolve n sym' = Some y /\
   exists sg seg_r,
     jbytes SetGlobal (sidx y) sg /\
-    LAYRV b y {| ccode := (ccode s3 ++ [N_of_opc ONone]) ++ sg; cconsts := cconsts s3; csym := sym'; cbreaks := cbreaks s3 |} st' seg_r /\
+    LAYRV rop S b y {| ccode := (ccode s3 ++ [N_of_opc ONone]) ++ sg; cconsts := cconsts s3; csym := sym'; cbreaks := cbreaks s3 |} st' seg_r /\
     ccode st' = ccode s3 ++ [N_of_opc ONone] ++ sg ++ seg_r /\ cbreaks st' = cbreaks s3 /\ csym st' = sym'.
 Proof.
-  intros HB HT HC. pose proof HT as (HO & HI & HN). rewrite for_loop_lv_body in HC.
+  intros HRO HB HT HC. pose proof HT as (HO & HI & HN). rewrite for_loop_lv_body in HC.
+  assert (X1 : make (N_of_opc rop) [1%Z] = Some [N_of_opc rop; 0; 1]) by (destruct HRO as [[-> ->]|[-> ->]]; vm_compute; reflexivity).
+  assert (X5 : make (N_of_opc Drop) [Z.of_N S] = Some [N_of_opc Drop; 0; S]) by (destruct HRO as [[-> ->]|[-> ->]]; vm_compute; reflexivity).
   destruct (st_define n (csym s3)) as [sym' y] eqn:ED. cbn [fst snd].
   assert (HD1 : fst (st_define n (csym s3)) = sym') by (rewrite ED; reflexivity).
   assert (HD2 : snd (st_define n (csym s3)) = y) by (rewrite ED; reflexivity).
@@ -1289,12 +1460,12 @@ Proof.
   split; [exact HT'|]. split; [exact SG|]. split; [exact DR|].
   destruct (emit true ONone [] (with_sym sym' s3)) as [sa|] eqn:Ea; [|discriminate]. cbn [bind] in HC.
   destruct (emit_set_var true y sa) as [st1|] eqn:Eb; [|discriminate]. cbn [bind] in HC.
-  destruct (emit true StepRange [1%Z] st1) as [st2|] eqn:E1; [|discriminate]. cbn [bind] in HC.
+  destruct (emit true rop [1%Z] st1) as [st2|] eqn:E1; [|discriminate]. cbn [bind] in HC.
   destruct (emit true JumpOnFalse [JumpPlaceholderZ] st2) as [st2'|] eqn:E2; [|discriminate]. cbn [bind] in HC.
   destruct (for_assign true (Some n) st2') as [st3|] eqn:E2a; [|discriminate]. cbn [bind] in HC.
   destruct (body_of true b (with_sym (st_push (csym st3)) (with_breaks [] st3))) as [st4|] eqn:E3; [|discriminate]. cbn [bind] in HC.
   destruct (emit true Jump [pos_of st1] (with_sym (st_pop (csym st4)) st4)) as [st5|] eqn:E4; [|discriminate]. cbn [bind] in HC.
-  destruct (emit true Drop [3%Z] st5) as [st6|] eqn:E5; [|discriminate]. cbn [bind] in HC.
+  destruct (emit true Drop [Z.of_N S] st5) as [st6|] eqn:E5; [|discriminate]. cbn [bind] in HC.
   destruct (patch true (pos_of st2) (pos_of st5) st6) as [st7|] eqn:E6; [|discriminate]. cbn [bind] in HC.
   destruct (patch_all true (cbreaks st6) (pos_of st5) st7) as [st8|] eqn:E7; [|discriminate]. cbn [bind] in HC.
   inversion HC; subst st'; clear HC.
@@ -1305,23 +1476,21 @@ Proof.
   unfold emit_set_var in Eb. rewrite SG in Eb. apply emit_op_bytes in Eb; [|reflexivity]. destruct Eb as (sg & HMG & HSG & ->).
   rewrite N2Z.id in HSG. cbn [ccode cconsts csym cbreaks] in *.
   apply emit_ok in E1. destruct E1 as (ins1 & HM1 & ->).
-  assert (X1 : make (N_of_opc StepRange) [1%Z] = Some [N_of_opc StepRange; 0; 1]) by (vm_compute; reflexivity).
-  assert (Y1 : ins1 = [N_of_opc StepRange; 0; 1]) by congruence. subst ins1. clear X1 HM1.
+  assert (Y1 : ins1 = [N_of_opc rop; 0; 1]) by congruence. subst ins1. clear X1 HM1.
   apply emit_hole_bytes in E2; [|reflexivity]. destruct E2 as (h0 & l0 & ->). cbn [ccode cconsts csym cbreaks] in *.
   unfold for_assign in E2a. cbn [csym] in E2a. rewrite DR in E2a. unfold emit_set_var in E2a. rewrite SG in E2a.
   apply emit_op_bytes in E2a; [|reflexivity]. destruct E2a as (sg2 & HMG2 & _ & ->).
   assert (sg2 = sg) by congruence. subst sg2. clear HMG2. cbn [ccode cconsts csym cbreaks] in *.
-  set (sr := [N_of_opc StepRange; 0; 1]) in *.
+  set (sr := [N_of_opc rop; 0; 1]) in *.
   set (sa := {| ccode := (ccode s3 ++ [N_of_opc ONone]) ++ sg; cconsts := cconsts s3; csym := sym'; cbreaks := cbreaks s3 |}) in *.
   destruct (HB _ _ E3) as (bs_b & seg_b & L & Cb & Bb & Sb); cbn [with_sym with_breaks csym];
     [apply gsym_push; exact HG'|apply has_gb_push; exact HGB'|].
   cbn [with_sym with_breaks ccode cconsts csym cbreaks app] in Cb, Bb, Sb.
   apply emit_jump_bytes in E4. destruct E4 as (jb & HJB & ->). cbn [with_sym ccode cconsts csym cbreaks] in *.
   apply emit_ok in E5. destruct E5 as (ins5 & HM5 & ->).
-  assert (X5 : make (N_of_opc Drop) [3%Z] = Some [N_of_opc Drop; 0; 3]) by (vm_compute; reflexivity).
-  assert (Y5 : ins5 = [N_of_opc Drop; 0; 3]) by congruence. subst ins5. clear X5 HM5.
+  assert (Y5 : ins5 = [N_of_opc Drop; 0; S]) by congruence. subst ins5. clear X5 HM5.
   cbn [ccode cconsts csym cbreaks] in *.
-  set (dr := [N_of_opc Drop; 0; 3]) in *.
+  set (dr := [N_of_opc Drop; 0; S]) in *.
   pose proof (jbytes_len _ _ _ HJB) as Ljb. pose proof (jbytes_len _ _ _ HSG) as Lsg.
   assert (C6 : (ccode st4 ++ jb) ++ dr = (ccode sa ++ sr) ++ N_of_opc JumpOnFalse :: h0 :: l0 :: (sg ++ seg_b ++ jb ++ dr)).
   { rewrite Cb. unfold sa. cbn [ccode]. rewrite <- !app_assoc. reflexivity. }
@@ -1615,6 +1784,7 @@ Definition psfrag_stmt (s : stmt) : bool :=
   match s with
   | SDecl _ e => efrag e
   | SForStep (Some _) start stop step b => ofrag start && efrag stop && ofrag step && wfrag_slist b
+  | SForIter (Some _) t e b => match t with TStr | TArr | TMap => efrag e && wfrag_slist b | _ => false end
   | _ => wfrag_stmt s && nb_stmt s
   end.
 Fixpoint psfrag (p : slist) : bool := match p with SNil => true | SCons s t => psfrag_stmt s && psfrag t end.
@@ -1694,7 +1864,7 @@ Proof.
   destruct (efrag_sl _ F3' s1 s2 E2) as (S2 & o2 & c2 & C2 & K2 & _).
   destruct (efrag_sl _ F1' s2 s3 E3) as (S3 & o3 & c3 & C3 & K3 & _).
   assert (HT3 : top_ok s3) by (unfold top_ok; rewrite S3, S2, S1; exact HT).
-  destruct (layrv_ok n b s3 st' (proj1 (proj2 lay_all) b F4) HT3 HC) as (HT' & SG & DR & sg & seg_r & HSG & LR & CR & BR & SR).
+  destruct (layrv_ok StepRange 3 n b s3 st' (or_introl (conj eq_refl eq_refl)) (proj1 (proj2 lay_all) b F4) HT3 HC) as (HT' & SG & DR & sg & seg_r & HSG & LR & CR & BR & SR).
   set (sym' := fst (st_define n (csym s3))) in *. set (y := snd (st_define n (csym s3))) in *.
   set (sa := {| ccode := (ccode s3 ++ [N_of_opc ONone]) ++ sg; cconsts := cconsts s3; csym := sym'; cbreaks := cbreaks s3 |}) in *.
   destruct (define_frame n (csym s3)) as (FD1 & FD2 & FD3). fold sym' in FD1, FD2, FD3.
@@ -1770,6 +1940,95 @@ Proof.
   - rewrite I6. unfold vs5, vs4, vs3, vs2, vs1; cbn [ip]. rewrite !app_length, Lsg. simpl. lia.
 Qed.
 
+(* `for n := range iterable` at top level: n becomes a global *)
+Lemma step_foriter_lv n t e b st st' :
+  (t = TStr \/ t = TArr \/ t = TMap) -> efrag e = true -> wfrag_slist b = true ->
+  compile_stmt true (SForIter (Some n) t e b) st = COk st' -> top_ok st ->
+  STEP (SForIter (Some n) t e b) st st'.
+Proof.
+  intros Ht F2 F4 HC HT fuel env env1 HX. pose proof HT as (HO & HI & HN).
+  destruct fuel as [|f]; [discriminate|]. cbn [exec_s] in HX. cbn [compile_stmt] in HC.
+  assert (HC' : compile_expr true e st >>= emit_const true (KNum 0) >>= for_loop true (Some n) IterRange 2 b = COk st')
+    by (destruct Ht as [->|[->| ->]]; exact HC). clear HC.
+  assert (HX' : match eval_expr env e with Some iter => exec_iv f n 0%float iter b (upd env n VNone) | None => None end = Some (env1, false))
+    by (destruct Ht as [->|[->| ->]]; exact HX). clear HX.
+  destruct (eval_expr env e) as [iter|] eqn:HE1; [|discriminate].
+  destruct (compile_expr true e st) as [s1|] eqn:E1; [|discriminate]. cbn [bind] in HC'.
+  destruct (emit_const true (KNum 0) s1) as [s2|] eqn:E2; [|discriminate]. cbn [bind] in HC'.
+  destruct (efrag_sl _ F2 st s1 E1) as (S1 & o1 & c1 & C1 & K1 & _).
+  destruct (const_correct _ _ _ E2) as (S2 & segk & C2 & K2 & D2).
+  assert (HT2 : top_ok s2) by (unfold top_ok; rewrite S2, S1; exact HT).
+  change 2%Z with (Z.of_N 2) in HC'.
+  destruct (layrv_ok IterRange 2 n b s2 st' (or_intror (conj eq_refl eq_refl)) (proj1 (proj2 lay_all) b F4) HT2 HC') as (HT' & SG & DR & sg & seg_r & HSG & LR & CR & BR & SR).
+  set (sym' := fst (st_define n (csym s2))) in *. set (y := snd (st_define n (csym s2))) in *.
+  set (sa := {| ccode := (ccode s2 ++ [N_of_opc ONone]) ++ sg; cconsts := cconsts s2; csym := sym'; cbreaks := cbreaks s2 |}) in *.
+  destruct (define_frame n (csym s2)) as (FD1 & FD2 & FD3). fold sym' in FD1, FD2, FD3.
+  assert (KR : exists nr, cconsts st' = cconsts s2 ++ nr).
+  { destruct LR as (stx & stb & bs_b & seg_b & jf & jb & sg0 & _ & Kx & _ & _ & LL & _ & _ & Kb & _).
+    destruct (proj1 (proj2 lay_frame) _ _ _ _ _ _ LL) as [(nb & Knb) _]. exists nb. rewrite Kb, Knb, Kx. reflexivity. }
+  destruct KR as (nr & KR).
+  split; [unfold top_ok; rewrite SR; exact HT'|]. split; [rewrite SR, <- S1, <- S2; exact FD3|].
+  exists (encode o1 ++ segk ++ [N_of_opc ONone] ++ sg ++ seg_r), (c1 ++ [KNum 0] ++ nr).
+  split; [rewrite CR, C2, C1, <- !app_assoc; reflexivity|]. split; [rewrite KR, K2, K1, <- !app_assoc; reflexivity|].
+  intros p vs pre post HP HLen HK HI0 HOs HLs HIdx HGl HD. cbn [sdepth] in HD.
+  set (G := List.length (globals vs)).
+  destruct (top_static st HT) as [HSS HSD].
+  assert (HIdx0 : index (cur (csym st)) <= N.of_nat G) by (rewrite SR in HIdx; rewrite <- S1, <- S2; unfold G; lia).
+  assert (HM : mstate_ok G st env [] vs).
+  { repeat split; auto. intros m ym HR. destruct (top_globals st HT m ym HR) as [_ HI2]. unfold G in HIdx0. lia. }
+  assert (HK2 : consts_of p s2) by (apply (consts_of_prefix p s2 st' nr KR HK)).
+  assert (HK1 : consts_of p s1) by (apply (consts_of_prefix p s1 s2 [KNum 0] K2 HK2)).
+  set (seg1 := encode o1) in *.
+  pose proof (expr_runs G e st s1 seg1 env iter [] p vs pre (segk ++ [N_of_opc ONone] ++ sg ++ seg_r ++ post) F2 E1 C1 HE1 HSS
+                ltac:(rewrite HP, <- !app_assoc; reflexivity) HK1 HI0 HM ltac:(cbn [List.length]; lia)) as R1.
+  set (vs1 := {| ip := ip vs + N.of_nat (List.length seg1); ostack := [iter]; locals := locals vs; globals := globals vs |}) in *.
+  destruct HM as (M1 & M2 & M3 & M4 & M5).
+  (* the counter: the constant 0 *)
+  destruct HK2 as (more2 & HK2).
+  destruct (D2 p vs1 more2 (pre ++ seg1) ([N_of_opc ONone] ++ sg ++ seg_r ++ post)) as (nk & R2).
+  { rewrite HP, <- !app_assoc. reflexivity. }
+  { exact HK2. }
+  { unfold vs1; simpl. rewrite HI0, app_length. lia. }
+  { unfold vs1; simpl. rewrite M2. simpl. lia. }
+  cbn [const_value] in R2.
+  set (vs2 := {| ip := ip vs1 + N.of_nat (List.length segk); ostack := VNum 0 :: ostack vs1; locals := locals vs1; globals := globals vs1 |}) in *.
+  (* the prologue: OpNone; OpSetGlobal n *)
+  pose proof (step_onone p vs2 (pre ++ seg1 ++ segk) (sg ++ seg_r ++ post)
+                ltac:(rewrite HP, <- !app_assoc; reflexivity)
+                ltac:(unfold vs2, vs1; simpl; rewrite HI0, !app_length; lia)
+                ltac:(unfold vs2, vs1; simpl; rewrite M2; simpl; lia)) as R4.
+  set (vs4 := {| ip := ip vs2 + 1; ostack := VNone :: ostack vs2; locals := locals vs2; globals := globals vs2 |}) in *.
+  destruct (sym_top_globals _ (proj1 HT') (proj1 (proj2 HT')) _ _ DR) as [_ SI]. cbn [with_sym csym] in SI.
+  assert (HLy : (N.to_nat (sidx y) < List.length (globals vs))%nat) by (rewrite SR in HIdx; lia).
+  pose proof (step_setglobal p vs4 (pre ++ seg1 ++ segk ++ [N_of_opc ONone]) (seg_r ++ post) sg (sidx y) VNone [VNum 0; iter] HSG
+                ltac:(rewrite HP, <- !app_assoc; reflexivity)
+                ltac:(unfold vs4, vs2, vs1; cbn [ip]; rewrite HI0, !app_length; simpl; lia) eq_refl
+                ltac:(unfold vs4, vs2, vs1; simpl; exact HLy)) as R5.
+  set (vs5 := {| ip := ip vs4 + 3; ostack := [VNum 0; iter]; locals := locals vs4;
+                 globals := set_nth (N.to_nat (sidx y)) VNone (globals vs4) |}) in *.
+  pose proof (jbytes_len _ _ _ HSG) as Lsg.
+  assert (HM5 : mstate_ok G sa (upd env n VNone) [VNum 0; iter] vs5).
+  { unfold mstate_ok, vs5, vs4, vs2, vs1, sa; cbn [ostack locals globals csym]. repeat split; auto.
+    - apply (store_global env n VNone y (csym st) sym' (globals vs) (proj1 HT') (proj1 (proj2 HT')) DR); auto.
+      intros m Em. unfold sym'. rewrite S2, S1. apply define_resolve_other. intros ->. rewrite str_eqb_refl in Em. discriminate.
+    - intros m ym HRm. rewrite set_nth_length. destruct (sym_top_globals _ (proj1 HT') (proj1 (proj2 HT')) _ _ HRm) as [_ X].
+      cbn [with_sym csym] in X. rewrite SR in HIdx. lia.
+    - rewrite set_nth_length. reflexivity. }
+  destruct (top_static _ HT') as [HSSa HSDa]. cbn [with_sym csym] in HSSa, HSDa.
+  destruct (sim_iv n b y sa st' seg_r LR DR f G (upd env n VNone) env1 false 0%float iter [] HX' p vs5
+              (pre ++ seg1 ++ segk ++ [N_of_opc ONone] ++ sg) post) as (vs6 & R6 & I6 & HM6); auto.
+  { rewrite HP, <- !app_assoc. reflexivity. }
+  { unfold sa. cbn [ccode]. rewrite C2, C1. fold seg1. rewrite !app_length, HLen. simpl. lia. }
+  { unfold vs5, vs4, vs2, vs1; cbn [ip]. rewrite HI0, !app_length, Lsg. simpl. lia. }
+  { cbn [List.length]. lia. }
+  { cbn [List.length]. lia. }
+  destruct HM6 as (A1 & A2 & A3 & A4 & A5).
+  exists vs6. split; [|split; [|split; [exact A1|split; [exact A2|split; [exact A5|rewrite SR; exact A3]]]]].
+  - eapply reaches_trans; [exact R1|]. eapply reaches_trans; [exists nk; exact R2|].
+    eapply reaches_trans; [apply reaches_step; exact R4|]. eapply reaches_trans; [apply reaches_step; exact R5|exact R6].
+  - rewrite I6. unfold vs5, vs4, vs2, vs1; cbn [ip]. rewrite !app_length, Lsg. simpl. lia.
+Qed.
+
 Lemma step_of_stmt s st st' : psfrag_stmt s = true -> compile_stmt true s st = COk st' -> top_ok st -> STEP s st st'.
 Proof.
   intros HF HC HT.
@@ -1781,6 +2040,11 @@ Proof.
     apply andb_true_iff in HF. destruct HF as [HF F4]. apply andb_true_iff in HF. destruct HF as [HF F3].
     apply andb_true_iff in HF. destruct HF as [F1 F2].
     apply (step_forstep_lv n start stop step b st st' F1 F2 F3 F4 HC HT).
+  - destruct lv as [n|]; [|apply GEN; exact HF]. cbn [psfrag_stmt] in HF.
+    assert (Ht : t = TStr \/ t = TArr \/ t = TMap) by (destruct t; try discriminate HF; auto).
+    assert (HF' : efrag e && wfrag_slist b = true) by (destruct t; try discriminate HF; exact HF).
+    apply andb_true_iff in HF'. destruct HF' as [F1 F2].
+    apply (step_foriter_lv n t e b st st' Ht F1 F2 HC HT).
 Qed.
 
 (* compile_correct for programs with control flow: top-level declarations,
